@@ -127,6 +127,7 @@ func init() {
 		"strings.TrimLeft":                     extStringsTrim,
 		"strings.TrimRight":                    extStringsTrim,
 		"strings.TrimSpace":                    extStringsTrimSpace,
+		"strings.Fields":                       extStringsFields,
 		"internal/stringslite.Index":           extIndexString,
 		"internal/stringslite.IndexByte":       extIndexByte,
 		"strings.IndexByte":                    extIndexByte,
@@ -768,6 +769,57 @@ func extStringsTrimSpace(fr *frame, a []value) value {
 		break
 	}
 	return strSlice(s, lo, hi)
+}
+
+// extStringsFields: strings.Fields over possibly symbolic bytes (the real one
+// indexes a 256-entry table with every byte). Separators are the ASCII
+// spaces and the two-byte spaces U+0085 / U+00A0; a byte that may start a
+// three-byte space (E1, E2, E3) is declined.
+func extStringsFields(fr *frame, a []value) value {
+	s := a[0]
+	p := fr.p
+	tt := p.tt
+	isASCIISpace := func(b value) value {
+		t := p.toTerm(b)
+		in := tt.Or(tt.And(tt.Cmp(OpUle, tt.BV(9, 8), t), tt.Cmp(OpUle, t, tt.BV(13, 8))), tt.Eq(t, tt.BV(' ', 8)))
+		return p.fromBoolTerm(in)
+	}
+	isLead3 := func(b value) value {
+		t := p.toTerm(b)
+		return p.fromBoolTerm(tt.And(tt.Cmp(OpUle, tt.BV(0xe1, 8), t), tt.Cmp(OpUle, t, tt.BV(0xe3, 8))))
+	}
+	eq := func(b value, c byte) value { return p.byteEq(b, c) }
+	out := []value{}
+	n := strLen(s)
+	start := -1
+	flush := func(end int) {
+		if start >= 0 {
+			out = append(out, strSlice(s, start, end))
+			start = -1
+		}
+	}
+	for i := 0; i < n; {
+		b := strAt(s, i)
+		if p.truth(isASCIISpace(b)) {
+			flush(i)
+			i++
+			continue
+		}
+		if p.truth(isLead3(b)) {
+			panic(unsupported("strings.Fields: possible three-byte space"))
+		}
+		if i+1 < n && p.truth(eq(b, 0xc2)) && p.truth(p.orv(eq(strAt(s, i+1), 0x85), eq(strAt(s, i+1), 0xa0))) {
+			flush(i)
+			i += 2
+			continue
+		}
+		if start < 0 {
+			start = i
+		}
+		i++
+	}
+	flush(n)
+	return out
 }
 
 func extBuilderString(fr *frame, a []value) value {
